@@ -202,3 +202,80 @@ impl Engine for C10Engine {
         "exploration"
     }
 }
+
+/// C19: single steps on arbitrary bytes and states (E5) plus multi-step guest programs against the built-in
+/// brk / pipe handlers (E3), judged for crashes and hangs only
+pub struct C19Engine;
+pub static C19: C19Engine = C19Engine;
+
+impl C19Engine {
+    fn parts(&self) -> [(&'static str, &'static dyn Engine); 2] {
+        [("e5", &crate::e5::E5), ("e3", &crate::e3::E3)]
+    }
+    fn part_of(&self, tag: &str) -> &'static dyn Engine {
+        self.parts().iter().find(|p| p.0 == tag).map(|p| p.1).unwrap_or(&crate::e5::E5)
+    }
+}
+
+impl Engine for C19Engine {
+    fn name(&self) -> &'static str {
+        "E5 insn-sim + E3 sys-sim"
+    }
+    fn runs(&self, prop: &str, thorough: bool) -> u64 {
+        self.parts().iter().map(|p| p.1.runs(prop, thorough)).sum()
+    }
+    fn gen(&self, prop: &str, thorough: bool, seed: u64, idx: u64) -> Value {
+        let mut base = 0;
+        for (tag, e) in self.parts() {
+            let n = e.runs(prop, thorough);
+            if idx < base + n {
+                return json!({"e": tag, "sc": e.gen(prop, thorough, seed, idx - base)});
+            }
+            base += n;
+        }
+        json!({"e": "e5", "sc": crate::e5::E5.gen(prop, thorough, seed, 0)})
+    }
+    fn exec(&self, prop: &str, sc: &Value, ctx: &mut Ctx) {
+        if sc.get("e").is_none() {
+            // replay files written before the multi-step part existed hold a bare E5 scenario
+            return crate::e5::E5.exec(prop, sc, ctx);
+        }
+        self.part_of(sc["e"].as_str().unwrap_or("e5")).exec(prop, &sc["sc"], ctx)
+    }
+    fn shrink(&self, prop: &str, sc: &Value) -> Vec<Value> {
+        if sc.get("e").is_none() {
+            return crate::e5::E5.shrink(prop, sc);
+        }
+        let e = sc["e"].clone();
+        self.part_of(e.as_str().unwrap_or("e5")).shrink(prop, &sc["sc"]).into_iter().map(|x| json!({"e": e.clone(), "sc": x})).collect()
+    }
+    fn crash_context(&self, prop: &str, sc: &Value) -> String {
+        if sc.get("e").is_none() {
+            return crate::e5::E5.crash_context(prop, sc);
+        }
+        self.part_of(sc["e"].as_str().unwrap_or("e5")).crash_context(prop, &sc["sc"])
+    }
+    fn components(&self) -> (Vec<&'static str>, Vec<&'static str>) {
+        let mut a: Vec<&'static str> = Vec::new();
+        let mut b: Vec<&'static str> = Vec::new();
+        for (_, e) in self.parts() {
+            let (x, y) = e.components();
+            a.extend(x);
+            b.extend(y);
+        }
+        a.sort();
+        a.dedup();
+        b.sort();
+        b.dedup();
+        (a, b)
+    }
+    fn rule(&self, prop: &str) -> String {
+        self.parts().iter().map(|p| p.1.rule(prop)).collect::<Vec<_>>().join(" || ")
+    }
+    fn assumptions(&self, prop: &str) -> Vec<String> {
+        self.parts().iter().flat_map(|p| p.1.assumptions(prop)).collect()
+    }
+    fn level(&self, prop: &str) -> &'static str {
+        crate::e5::E5.level(prop)
+    }
+}
